@@ -291,36 +291,58 @@ theorem operand_atom {e : Expr} {m : Int} (ha : Spec.atomVal e = some m) (hnd : 
 subscript expression faults on both sides. -/
 theorem index_rel {i : Expr} (ih : EvalIH Γ σ i) (lo hi : Int)
     (hty : (∃ m, Spec.atomVal i = some m) ∨ (∃ k, Spec.infer Γ i = some (.int k)))
-    (hnd : noDriftE Γ i = true) (hu : Spec.infer Γ i ≠ some (.int .ulint)) :
+    (hnd : noDriftE Γ i = true)
+    (hu : Spec.infer Γ i ≠ some (.int .ulint) ∨ hi < 9223372036854775807) :
     (∃ n, (evalExpr .real σ i >>= arrayIndex .real lo hi) = .ok n ∧
         Spec.operandVal Γ (eraseEnv σ.vars) i = .ok n ∧ lo ≤ n ∧ n ≤ hi) ∨
     (∃ n s, (evalExpr .real σ i >>= arrayIndex .real lo hi) = .error s ∧
         Spec.operandVal Γ (eraseEnv σ.vars) i = .ok n ∧ (n < lo ∨ n > hi) ∧ s.toS = some .indexOut) ∨
     (∃ s f, (evalExpr .real σ i >>= arrayIndex .real lo hi) = .error s ∧
         Spec.operandVal Γ (eraseEnv σ.vars) i = .error f ∧ s.toS = some f) := by
-  have key : ∀ (k : IKind) (x : Int), k ≠ .ulint → evalExpr .real σ i = .ok (.i k x) →
+  have key : ∀ (k : IKind) (x y : Int), indexToI64 .real (.i k x) = .ok y → (y = x ∨ (hi < x ∧ hi < y)) →
+      evalExpr .real σ i = .ok (.i k x) →
       Spec.operandVal Γ (eraseEnv σ.vars) i = .ok x →
       (∃ n, (evalExpr .real σ i >>= arrayIndex .real lo hi) = .ok n ∧
           Spec.operandVal Γ (eraseEnv σ.vars) i = .ok n ∧ lo ≤ n ∧ n ≤ hi) ∨
       (∃ n s, (evalExpr .real σ i >>= arrayIndex .real lo hi) = .error s ∧
           Spec.operandVal Γ (eraseEnv σ.vars) i = .ok n ∧ (n < lo ∨ n > hi) ∧ s.toS = some .indexOut) := by
-    intro k x hk h1 h2
-    by_cases hb : x < lo ∨ x > hi
-    · refine .inr ⟨x, .fault .IndexOutOfBounds .indexBounds, ?_, h2, hb, rfl⟩
-      simp [h1, bind, Except.bind, arrayIndex, indexToI64_ok hk, hb, fault]
+    intro k x y hy hxy h1 h2
+    by_cases hb : y < lo ∨ y > hi
+    · refine .inr ⟨x, .fault .IndexOutOfBounds .indexBounds, ?_, h2, by omega, rfl⟩
+      simp [h1, bind, Except.bind, arrayIndex, hy, hb, fault]
     · refine .inl ⟨x, ?_, h2, by omega, by omega⟩
-      simp [h1, bind, Except.bind, arrayIndex, indexToI64_ok hk, hb, pure, Except.pure]
+      have : y = x := by omega
+      subst this
+      simp [h1, bind, Except.bind, arrayIndex, hy, hb, pure, Except.pure]
   rcases hty with ⟨m, ha⟩ | ⟨k, hi'⟩
   · obtain ⟨h1, _, h2⟩ := operand_atom Γ σ ha hnd
-    rcases key .dint m (by decide) h1 h2 with h | h
+    rcases key .dint m m rfl (.inl rfl) h1 h2 with h | h
     · exact .inl h
     · exact .inr (.inl h)
-  · rcases operand_infer Γ σ ih hi' hnd with ⟨x, h1, _, h2⟩ | ⟨s, f, h1, h2, h3⟩
-    · have hk : k ≠ .ulint := by
-        intro h; subst h; exact hu hi'
-      rcases key k x hk h1 h2 with h | h
-      · exact .inl h
-      · exact .inr (.inl h)
+  · rcases operand_infer Γ σ ih hi' hnd with ⟨x, h1, hx, h2⟩ | ⟨s, f, h1, h2, h3⟩
+    · by_cases hk : k = .ulint
+      · subst hk
+        have hhi : hi < 9223372036854775807 := by
+          rcases hu with hu | hu
+          · exact absurd hi' hu
+          · exact hu
+        by_cases hbig : x ≤ i64Max
+        · have hy : indexToI64 .real (.i .ulint x) = .ok x := by
+            simp [indexToI64, Cfg.real, hbig, pure, Except.pure]
+          rcases key .ulint x x hy (.inl rfl) h1 h2 with h | h
+          · exact .inl h
+          · exact .inr (.inl h)
+        · have hy : indexToI64 .real (.i .ulint x) = .ok i64Max := by
+            simp [indexToI64, Cfg.real, hbig, pure, Except.pure]
+          have hb2 : hi < x ∧ hi < i64Max := by
+            simp [i64Max] at hbig ⊢
+            omega
+          rcases key .ulint x i64Max hy (.inr hb2) h1 h2 with h | h
+          · exact .inl h
+          · exact .inr (.inl h)
+      · rcases key k x x (indexToI64_ok hk x) (.inl rfl) h1 h2 with h | h
+        · exact .inl h
+        · exact .inr (.inl h)
     · exact .inr (.inr ⟨s, f, by simp [h1, bind, Except.bind], h2, h3⟩)
 
 theorem Spec.eval_idx (Γ : Ctx) (σ' : SEnv) (a : String) (i : Expr) :
@@ -732,8 +754,8 @@ theorem eval_rel (hσ : StoreWT Γ σ) (e : Expr) : EvalIH Γ σ e := by
     intro T hT hnd
     obtain ⟨lo, hi, hag, hi'⟩ := Spec.infer_idx hT
     have hσa : σ.aggs.lookup a = some (.arr lo hi T) := by rw [hσ.aggs]; exact hag
-    have ndi : noDriftE Γ i = true ∧ Spec.infer Γ i ≠ some (.int .ulint) := by
-      simpa [noDriftE] using hnd
+    have ndi : noDriftE Γ i = true ∧ (Spec.infer Γ i ≠ some (.int .ulint) ∨ hi < 9223372036854775807) := by
+      simpa [noDriftE, arrHiOK, hag] using hnd
     have hty : (∃ m, Spec.atomVal i = some m) ∨ (∃ k, Spec.infer Γ i = some (.int k)) := by
       rcases hi' with ⟨m, hm, _⟩ | ⟨_, k, hk⟩
       · exact .inl ⟨m, hm⟩
